@@ -169,20 +169,7 @@ def run(ctx):
         cs = [callee_key(t) for bi, t in fs[0].calls()]
         if not any(c.endswith(callee) for c in cs):
             r.violate(k, f"{k} calls {cs}, expected {callee}", fs[0].loc())
-    et = mir.fn("Lexer::emit_tag[StateMachineActions]")
-    hf = [bi for bi, t in et.calls(r"Lexer::handle_tree_builder_feedback$")]
-    ns_reads = [bi for bi, t in et.calls(r"TreeBuilderSimulator::current_ns$")]
-    r.inst("emit_tag|ns", sample={"current_ns_reads": len(ns_reads), "deferred_feedback_calls": len(hf)})
-    if len(hf) != 1 or not ns_reads:
-        r.violate("emit_tag|ns", "Lexer::emit_tag: expected one handle_tree_builder_feedback call and a read of current_ns()", et.loc())
-    else:
-        # a read that is not after the deferred feedback must exist (the element of an integration point belongs to the foreign namespace)
-        before = [b for b in ns_reads if not et.dominates(hf[0], b) and b not in et.reachable_blocks(et.succs()[hf[0]][0])]
-        tf = [bi for bi, t in et.calls(r"Lexer::try_get_tree_builder_feedback$")]
-        if not before:
-            r.violate("emit_tag|ns-before-deferred-feedback", "the namespace stored in the start tag is read only after deferred tree-builder feedback was applied: for an integration point (<svg><foreignObject>, <title>, <desc>; <math><mi|mo|mn|ms|mtext>, <annotation-xml encoding=text/html>) the callback has already entered the HTML namespace, so namespace_uri() reports XHTML for an SVG/MathML element", et.loc())
-        elif tf and not all(et.dominates(tf[0], b) for b in before):
-            r.violate("emit_tag|ns-after-immediate-feedback", "the namespace is read before the immediate tree-builder feedback (<svg> itself would report the outer namespace)", et.loc())
+    clause_ns_of_tag(r, mir)
     # void list
     import importlib.util, os
     from ..facts import VERIF
@@ -231,3 +218,25 @@ def run(ctx):
     return ("Typestate of the attribute-building actions over every path of the %d-state automaton, the lookup/edit discipline of Attributes, "
             "the getter-to-decoder mapping, where the reported namespace is read relative to tree-builder feedback, and a lint for byte-wise "
             "case folding of encoded names." % len(aut.states))
+
+
+def clause_ns_of_tag(r, mir):
+    et = mir.fn("Lexer::emit_tag[StateMachineActions]")
+    hf = [bi for bi, t in et.calls(r"Lexer::handle_tree_builder_feedback$")]
+    ns_reads = [bi for bi, t in et.calls(r"TreeBuilderSimulator::current_ns$")]
+    r.inst("emit_tag|ns", sample={"current_ns_reads": len(ns_reads), "deferred_feedback_calls": len(hf)})
+    if len(hf) != 1 or not ns_reads:
+        r.violate("emit_tag|ns", "Lexer::emit_tag: expected one handle_tree_builder_feedback call and a read of current_ns()", et.loc())
+    else:
+        # a read that is not after the deferred feedback must exist (the element of an integration point belongs to the foreign namespace)
+        before = [b for b in ns_reads if not et.dominates(hf[0], b) and b not in et.reachable_blocks(et.succs()[hf[0]][0])]
+        tf = [bi for bi, t in et.calls(r"Lexer::try_get_tree_builder_feedback$")]
+        if not before:
+            r.violate("emit_tag|ns-before-deferred-feedback", "the namespace stored in the start tag is read only after deferred tree-builder feedback was applied: for an integration point (<svg><foreignObject>, <title>, <desc>; <math><mi|mo|mn|ms|mtext>, <annotation-xml encoding=text/html>) the callback has already entered the HTML namespace, so namespace_uri() reports XHTML for an SVG/MathML element", et.loc())
+        elif tf and not all(et.dominates(tf[0], b) for b in before):
+            r.violate("emit_tag|ns-after-immediate-feedback", "the namespace is read before the immediate tree-builder feedback (<svg> itself would report the outer namespace)", et.loc())
+
+
+def rule_ns_of_tag(ctx, mir, rid):
+    r = ctx.rule(rid, "the namespace reported for a start tag does not depend on who asked for tree-builder feedback (lexer or tag scanner): it is read after the immediate feedback and is not affected by deferred feedback (integration points)", "E-MIR", floor=1)
+    clause_ns_of_tag(r, mir)
